@@ -125,6 +125,9 @@ Definition dispatch (cmd : string) (a : val) : val :=
               | Err _ => VL []
               end;
               VRes (fun o => match o with None => VL [] | Some n => VL [VNode n] end)
-                   (twalkd up [] (abs_tree s) p)]) (getL (arg 4 a)))
+                   (twalkd up [] (abs_tree s) p);
+              (* resolved_is_normalised_path, evaluated: the plain walk along the dot-free normal form *)
+              VRes (fun o => match o with None => VL [] | Some n => VL [VNode n] end)
+                   (twalk up (abs_tree s) (lexnorm up [] p))]) (getL (arg 4 a)))
   else if String.eqb cmd "chain" then VNs (chain_of V (v_fat s) (getN (arg 4 a)))
   else VErr "unknown command".
